@@ -11,15 +11,24 @@ from harness.common import err_kind, deep_compare
 PID = "C24"
 THEOREMS = [
     "PorepyVerif.C24.reachable_inv",
+    "PorepyVerif.C24.world_inv",
     "PorepyVerif.C24.listing_sorted_nodup",
     "PorepyVerif.C24.listing_all",
     "PorepyVerif.C24.interface_pair_roundtrip",
+    "PorepyVerif.C24.subdomain_to_interfaces_spec",
+    "PorepyVerif.C24.neighboring_subdomains_spec",
     "PorepyVerif.C24.remove_exact",
     "PorepyVerif.C24.one_boundary_grid_per_positive_dim",
     "PorepyVerif.C24.replace_exact",
     "PorepyVerif.C24.replace_loop_visits_all",
+    "PorepyVerif.C24.replace_failure_atomic",
     "PorepyVerif.C24.rejections",
     "PorepyVerif.C24.valid_calls_accepted",
+    "PorepyVerif.C24.data_dictionaries_consistent",
+    "PorepyVerif.C24.replace_data_travels",
+    "PorepyVerif.C24.data_frame",
+    "PorepyVerif.C24.copy_shares_and_is_independent",
+    "PorepyVerif.C24.other_containers_histories",
 ]
 LEAN_MODULES = ["PorepyVerif.C24.Props"]
 AUDIT = "PorepyVerif/C24/Audit.lean"
@@ -33,18 +42,26 @@ RULE = ("family 'mock' (88%): histories of 1-30 calls (add_subdomains / add_inte
         "plus, as last call, an accepted-but-ill-formed add_interface; equal-dimensional, parallel and self interfaces occur. "
         "family 'real' (12%): the grids / mortar grids (real projections) of a 2-d Cartesian md-grid with two crossing fractures are inserted in random "
         "order, then 1-d grids are replaced by refinements, the 0-d grid by a copy, mortar grids refined via interface_map, subdomains removed. "
+        "Stratified dimensions: sd_maps that replace BOTH subdomains of one interface (30% of the replacements when possible), replacements whose mortar "
+        "update MortarGrid does not implement (2-d mortar on the primary side, mortar/new-grid dimension mismatch on the secondary side: the call must "
+        "raise NotImplementedError and change nothing), copy() followed by calls on the original and on the copies in random interleaving. "
         "non-trivial = at least one removal or replacement of a subdomain that carries an interface; distinct = distinct op sequences")
 TRUSTED = [
     "modelled, not verified: python dict insertion order, np.argsort / np.hstack inside argsort_grids, object identity = creation id",
     "mortar projection updates (MortarGrid.update_mortar / update_primary / update_secondary) are outside the container property: "
-    "in the 'mock' family they are stubbed by a logging subclass (the call sequence is compared with the model), in the 'real' family "
-    "the real geometric matching runs on a 2-d fractured Cartesian md-grid",
+    "in the 'mock' family they are stubbed by a logging subclass (the call sequence is compared with the model) which runs the real method "
+    "exactly when it raises NotImplementedError from its dimension guards; in the 'real' family the real geometric matching runs on a 2-d "
+    "fractured Cartesian md-grid; failures of the geometric matching itself (non-matching grids) are outside the model",
+    "identity of data dictionaries is observed through id() of the dictionaries kept alive for the whole case",
 ]
-EXPLANATION = ("FULL: model = the four dictionaries of the container in insertion order with all mutators and queries as coded "
-               "(with the repairs of the listed findings); theorems are invariants over ALL well-formed histories (induction) plus exact "
-               "frame statements for removal / replacement and exact acceptance conditions. Correspondence compares, after every call, "
-               "the raw dictionaries (key order included), every listing (all dim / codim filters), pair maps both ways, per-subdomain "
-               "interface / neighbour / boundary-grid maps, error kinds and the sequence of mortar-update calls.")
+EXPLANATION = ("FULL: model = the dictionaries of the container in insertion order with all mutators and queries as coded, the identity of the "
+               "data dictionaries, and families of containers made by copy() sharing objects and the class-level id counters (model follows the "
+               "property where the one open finding applies: a raising replace leaves no trace); theorems are invariants over ALL well-formed "
+               "histories of any number of containers (induction) plus exact frame statements for removal / replacement (graph and data), "
+               "query specifications, exact acceptance conditions, atomicity of failing calls, independence of copies. Correspondence compares, "
+               "after every call, the raw dictionaries of EVERY container (key order and data-dictionary identities included), every listing "
+               "(all dim / codim filters), pair maps both ways, per-subdomain interface / neighbour / boundary-grid maps, error kinds and the "
+               "sequence of mortar-update calls.")
 ASSUMPTIONS = [
     "well-formed use (decidable, part of the theorem statements): an interface is added between two present subdomains with a mortar grid "
     "of dimension <= both; a replacement grid is a fresh object of the same dimension",
@@ -61,7 +78,8 @@ def _pp():
         from porepy.grids.mortar_grid import MortarSides
 
         class StubMortar(pp.MortarGrid):
-            """MortarGrid whose projection updates only log the call (geometry is C26's subject)."""
+            """MortarGrid whose projection updates only log the call (geometry is C26's subject), except for the
+            dimension combinations the real methods reject before looking at any geometry: there the real method runs."""
             log = None
             index = None
 
@@ -70,9 +88,13 @@ def _pp():
 
             def update_primary(self, g_new, g_old, tol=None):
                 self.log.append(["primary", self.index(self), self.gindex(g_new), self.gindex(g_old)])
+                if self.dim not in (0, 1):  # the real method raises whatever the geometry: run it
+                    return pp.MortarGrid.update_primary(self, g_new, g_old, tol)
 
             def update_secondary(self, new_g, tol=None):
                 self.log.append(["secondary", self.index(self), self.gindex(new_g)])
+                if self.dim != new_g.dim:  # the real method raises whatever the geometry: run it
+                    return pp.MortarGrid.update_secondary(self, new_g, tol)
 
         _PP.update(np=np, pp=pp, sides=MortarSides, Stub=StubMortar)
     return _PP
@@ -152,7 +174,9 @@ class _World:
         # rank of boundary grids created from now on (class-level creation counter)
         anchor = pp.CartGrid(np.array([1]))
         self.bg_base = pp.BoundaryGrid(anchor).id + 1
-        self.mdg = pp.MixedDimensionalGrid()
+        self.mdgs = [pp.MixedDimensionalGrid()]
+        self.mdg = self.mdgs[0]
+        self.keep = []  # keeps every data dictionary alive, so that id() identifies it for the whole case
         self.side_proto = {d: (pp.PointGrid(np.zeros(3)) if d == 0 else pp.CartGrid(np.array([1] * d))) for d in (0, 1, 2)}
         for g in self.side_proto.values():
             g.compute_geometry()
@@ -170,6 +194,7 @@ class _World:
     def apply(self, op):
         """Execute one op on the real container. Returns the returned value (queries) or None."""
         P = _pp()
+        self.mdg = self.mdgs[op.get("on", 0)]
         mdg, pp = self.mdg, self.pp
         k = op["op"]
         if k == "add_subdomains":
@@ -196,7 +221,8 @@ class _World:
                     imap[m] = P["pp"].MortarGrid(m.dim, sides) if (j + i) % 2 else sides
             mdg.replace_subdomains_and_interfaces(sd_map=sd_map, interface_map=imap)
         elif k == "fork":
-            self.mdg = mdg.copy()
+            self.mdgs.append(mdg.copy())
+            self.mdg = self.mdgs[-1]
         elif k == "q_pair":
             a, b = mdg.interface_to_subdomain_pair(self.mortars[op["i"]])
             return [self.sd(a), self.sd(b)]
@@ -239,6 +265,24 @@ class _World:
             "bg_data": [[self.bg(b), self.sd(b.parent)] for b in mdg._boundary_grid_data],
         }
 
+    def tok(self, d):
+        self.keep.append(d)
+        return id(d)
+
+    def all_raw(self):
+        """raw dictionaries of every container; data dictionaries by identity (canonicalised by _canon_tokens)."""
+        out = []
+        for mdg in self.mdgs:
+            out.append({
+                "sds": [self.sd(g) for g in mdg._subdomain_data],
+                "pairs": [[self.itf(i), self.sd(a), self.sd(b)] for i, (a, b) in mdg._interface_to_subdomains.items()],
+                "bg_of": [[self.sd(g), self.bg(b)] for g, b in mdg._subdomain_to_boundary_grid.items()],
+                "sd_tok": [[self.sd(g), self.tok(d)] for g, d in mdg._subdomain_data.items()],
+                "if_tok": [[self.itf(i), self.tok(d)] for i, d in mdg._interface_data.items()],
+                "bg_tok": [[self.bg(b), self.tok(d)] for b, d in mdg._boundary_grid_data.items()],
+            })
+        return out
+
     def observe(self):
         mdg, ex = self.mdg, self.ex
         sds = lambda l: [self.sd(g) for g in l]
@@ -265,6 +309,43 @@ class _World:
         })
         return o
 
+    def order_key(self, x):
+        """(dimension desc, creation order asc) for grids and mortar grids of the case"""
+        return (-x.dim, self.gidx[x] if x in self.gidx else self.midx[x])
+
+    def plan_replace(self, present, pairs, sd_map):
+        """What the items of an sd_map must do, from sets of present subdomains and (unordered) pairs:
+        list of (old, new, status, calls, wf) with status 'ok' | 'KeyError' | 'NotImplementedError'; the list stops
+        after the first failing item.  Mortar updates are attempted in the sorted order of the interfaces of `old`;
+        update_primary is implemented for mortar grids of dimension 0 and 1 only, update_secondary requires a new
+        grid of the dimension of the mortar grid (documented limitations of MortarGrid)."""
+        present, pairs = list(present), dict(pairs)
+        plan = []
+        for o, n in sd_map:
+            go, gn = self.grids[o], self.grids[n]
+            if go not in present:
+                plan.append((o, n, "KeyError", [], True))
+                break
+            calls, status = [], "ok"
+            for i in sorted([i for i, p in pairs.items() if go in p], key=self.order_key):
+                hi, lo = sorted(pairs[i], key=self.order_key)
+                if hi is go and status == "ok":
+                    calls.append(["primary", self.itf(i), n, o])
+                    if i.dim not in (0, 1):
+                        status = "NotImplementedError"
+                if lo is go and status == "ok":
+                    calls.append(["secondary", self.itf(i), n])
+                    if i.dim != gn.dim:
+                        status = "NotImplementedError"
+            wf = gn not in present and gn.dim == go.dim
+            plan.append((o, n, status, calls, wf if status == "ok" else True))
+            if status != "ok":
+                break
+            for i, p in list(pairs.items()):
+                pairs[i] = tuple(gn if x is go else x for x in p)
+            present[present.index(go)] = gn
+        return plan
+
     def wf(self, op):
         """well-formedness of an op w.r.t. the current real container (mirrors the theorem hypothesis)."""
         mdg = self.mdg
@@ -273,20 +354,24 @@ class _World:
             m = self.mortars[op["i"]]
             return a in mdg and b in mdg and m.dim <= a.dim and m.dim <= b.dim
         if op["op"] == "replace":
-            present = set(mdg._subdomain_data)
-            ok = True
-            for o, n in op["sd_map"]:
-                go, gn = self.grids[o], self.grids[n]
-                if go not in present:
-                    break
-                ok = ok and gn not in present and gn.dim == go.dim
-                present.discard(go)
-                present.add(gn)
-            return ok
+            plan = self.plan_replace(list(mdg._subdomain_data), dict(mdg._interface_to_subdomains), op["sd_map"])
+            return all(item[4] for item in plan)
         return True
 
 
 MUTATORS = ("add_subdomains", "add_interface", "remove_subdomain", "replace")
+
+
+def _canon_tokens(outs):
+    """rename data-dictionary identities (python ids / model tokens) by order of first appearance"""
+    ren = {}
+    for o in outs:
+        if isinstance(o, dict) and "all" in o:
+            for c in o["all"]:
+                for key in ("sd_tok", "if_tok", "bg_tok"):
+                    for e in c[key]:
+                        e[1] = ren.setdefault(e[1], len(ren))
+    return outs
 
 
 def impl_run(case):
@@ -295,6 +380,7 @@ def impl_run(case):
     for op in case["ops"]:
         k = op["op"]
         if k in MUTATORS:
+            w.mdg = w.mdgs[op.get("on", 0)]
             wf = w.wf(op)
             del w.log[:]
             try:
@@ -305,24 +391,24 @@ def impl_run(case):
             if res != "ok":
                 # a rejected add_interface is well-formed by definition (nothing is required of it)
                 wf = True if k == "add_interface" else wf
-            out.append({"res": res, "calls": [list(c) for c in w.log], "wf": wf, "obs": w.observe()})
+            out.append({"res": res, "calls": [list(c) for c in w.log], "wf": wf, "obs": w.observe(), "all": w.all_raw()})
         elif k == "fork":
             w.apply(op)
-            out.append({"res": "ok", "obs": w.observe()})
+            out.append({"res": "ok", "obs": w.observe(), "all": w.all_raw()})
         else:
             out.append({"res": w.ex(lambda: w.apply(op), lambda v: v)})
-    return out
+    return _canon_tokens(out)
 
 
 def model_ops(case):
     ops = [{"op": "init", "sd_dims": case["sd_dims"], "if_dims": case["if_dims"], "if_codims": case["if_codims"]}]
     for op in case["ops"]:
-        ops.append({k: v for k, v in op.items() if k in ("op", "gs", "i", "pair", "g", "sd_map", "intf_map")})
+        ops.append({k: v for k, v in op.items() if k in ("op", "on", "gs", "i", "pair", "g", "sd_map", "intf_map")})
     return ops
 
 
 def model_decode(outs, case):
-    return outs[1:]
+    return _canon_tokens(outs[1:])
 
 
 def compare(impl, model, case):
@@ -339,38 +425,71 @@ def _key(x):
     return (-x.dim, _ORDER.get(id(x), ("z", x.id)))
 
 
+class _Shadow:
+    """what one container must contain, in the vocabulary of the property"""
+
+    def __init__(self):
+        self.present = []   # subdomain objects present
+        self.pairs = {}     # interface object -> (a, b) as given / substituted (unordered)
+        self.bg_of = {}     # subdomain -> boundary grid object
+        self.sd_data, self.if_data, self.bg_data = {}, {}, {}
+
+    def copy(self):
+        c = _Shadow()
+        c.present, c.pairs, c.bg_of = list(self.present), dict(self.pairs), dict(self.bg_of)
+        c.sd_data, c.if_data, c.bg_data = dict(self.sd_data), dict(self.if_data), dict(self.bg_data)  # same dictionaries
+        return c
+
+
 def oracle(case):
-    """The property statement checked directly on the real container after every call, against a
+    """The property statement checked directly on the real containers after every call, against a
     shadow written in the vocabulary of the property (sets of present objects, unordered pairs)."""
     w = _World(case)
-    pp = w.pp
     _ORDER.clear()
     _ORDER.update({id(g): ("a", k) for g, k in w.gidx.items()})
     _ORDER.update({id(m): ("a", k) for m, k in w.midx.items()})
-    present = []            # subdomain objects present
-    pairs = {}              # interface object -> (a, b) unordered (as given / substituted)
-    bg_of = {}              # subdomain -> boundary grid object
-    sd_data, if_data, bg_data = {}, {}, {}
-    forks = []              # (container, raw snapshot) of containers left behind by copy()
+    shadows = [_Shadow()]
 
     def fail(k, what, key):
         return {"what": f"op {k} {json.dumps(case['ops'][k])}: {what}", "key": key}
 
+    def raws():
+        out = []
+        for m in w.mdgs:
+            w.mdg = m
+            out.append(w.raw())
+        return out
+
     for k, op in enumerate(case["ops"]):
         kind = op["op"]
-        mdg = w.mdg
+        on = op.get("on", 0)
         if kind == "fork":
-            forks.append((mdg, w.raw()))
+            before_all = raws()
             w.apply(op)
-            if w.raw() != forks[-1][1]:
+            shadows.append(shadows[on].copy())
+            after_all = raws()
+            if after_all[:-1] != before_all:
+                return fail(k, "copy() changed an existing container", "copy:changed-existing")
+            if after_all[-1] != before_all[on]:
                 return fail(k, "copy() differs from the original", "copy:differs")
+            w.mdg = w.mdgs[-1]
+            r = _check_state(w, shadows[-1])  # includes: the copy holds the very same data dictionaries
+            if r is not None:
+                return fail(k, "copy(): " + r[0], f"copy:{r[1]}")
             continue
         if kind not in MUTATORS:
             continue  # queries are compared with the model; the checks below query everything anyway
-        before = w.raw()
+        sh = shadows[on]
+        present, pairs, bg_of = sh.present, sh.pairs, sh.bg_of
+        sd_data, if_data, bg_data = sh.sd_data, sh.if_data, sh.bg_data
+        w.mdg = mdg = w.mdgs[on]
+        before_all = raws()
+        before = before_all[on]
+        w.mdg = mdg
         wf = w.wf(op)
         # ---- what the property / documentation says must happen
         expect = None  # None = must succeed
+        plan = []
         if kind == "add_subdomains":
             gs = [w.grids[i] for i in op["gs"]]
             if any(g in present for g in gs):
@@ -393,42 +512,44 @@ def oracle(case):
             if not wf:
                 expect = "any"
             else:
-                sim = set(present)
-                for o, n in op["sd_map"]:
-                    if w.grids[o] not in sim:
-                        expect = "KeyError"
-                        break
-                    sim.discard(w.grids[o])
-                    sim.add(w.grids[n])
+                plan = w.plan_replace(present, pairs, op["sd_map"])
+                if plan and plan[-1][2] != "ok":
+                    expect = plan[-1][2]
         del w.log[:]
         try:
             w.apply(op)
             got = None
         except Exception as e:  # noqa: BLE001
             got = type(e).__name__
-        after = w.raw()
-        # ---- known-defect shapes get their own keys (see known_findings.d/C24.json)
+        after_all = raws()
+        after = after_all[on]
+        w.mdg = mdg
+        if [r for j, r in enumerate(after_all) if j != on] != [r for j, r in enumerate(before_all) if j != on]:
+            return fail(k, "a call on one container changed another container (copy() must give independent containers)", "copy:other-container-changed")
+        # ---- shapes of defects found earlier keep their own keys (all fixed in /repo now)
         if kind == "add_interface" and got is not None and expect is not None and after != before:
             i = op["i"]
             if after == dict(before, intf_data=before["intf_data"] + [i]):
                 return fail(k, f"add_interface raised {got} but left the interface in _interface_data (listed by interfaces(), no subdomain pair)",
                             "add_interface:rejected-but-stored")
         if expect == "any":
-            return None
+            if got is not None and after == before:
+                continue  # rejected without effect: the history goes on
+            return None   # accepted although ill-formed: outside the property's domain from here on
         if kind == "add_subdomains" and expect == "ValueError" and got is None and not any(g in present for g in gs):
             return fail(k, f"add_subdomains accepted a list naming the same grid twice; boundaries() now has {len(mdg._boundary_grid_data)} grids "
                         f"for {len(mdg._subdomain_data)} subdomains", "add_subdomains:duplicate-in-call-accepted")
         if kind == "remove_subdomain" and expect is None:
             g = w.grids[op["g"]]
             left = [i for i, (a, b) in mdg._interface_to_subdomains.items() if a is g or b is g]
-            if left and all(pairs.get(i) == (g, g) or (pairs.get(i) and pairs[i][0] is g and pairs[i][1] is g) for i in left):
+            if left and all(pairs.get(i) and pairs[i][0] is g and pairs[i][1] is g for i in left):
                 return fail(k, f"remove_subdomain ({'raised ' + got if got else 'returned'}) left {len(left)} interface(s) from the removed subdomain to itself in the container",
                             "remove_subdomain:self-interface-survives")
         if kind == "replace":
             for o, n in op["sd_map"]:
                 go, gn = w.grids[o], w.grids[n]
-                half = [i for i, (a, b) in mdg._interface_to_subdomains.items() if {a, b} == {go, gn} and pairs.get(i) and pairs[i][0] is go and pairs[i][1] is go]
-                if half:
+                half = [i for i, (a, b) in mdg._interface_to_subdomains.items() if a is not b and {a, b} == {go, gn} and pairs.get(i) and pairs[i][0] is go and pairs[i][1] is go]
+                if half and (expect is None or expect == "KeyError"):
                     return fail(k, "replace_subdomains_and_interfaces rewrote only one end of an interface from the replaced subdomain to itself; "
                                 "the other end still names the deleted subdomain", "replace:self-interface-half-replaced")
         # ---- outcome
@@ -438,14 +559,10 @@ def oracle(case):
             return fail(k, f"call that must be rejected ({expect}) was accepted", f"{kind}:not-rejected")
         if expect is not None and got != expect:
             return fail(k, f"rejected with {got}, expected {expect}", f"{kind}:wrong-error-{got}")
-        if got is not None:
-            # rejected: state unchanged; a multi-item sd_map keeps the items before the failing one
-            if kind == "replace" and len(op["sd_map"]) > 1:
-                pass
-            elif after != before:
-                return fail(k, f"rejected call ({got}) changed the container: {before} -> {after}", f"{kind}:rejected-call-changed-state")
+        if got is not None and kind != "replace" and after != before:
+            return fail(k, f"rejected call ({got}) changed the container: {before} -> {after}", f"{kind}:rejected-call-changed-state")
         # ---- shadow update
-        calls_expected = []
+        known = {id(d) for s2 in shadows for dd in (s2.sd_data, s2.if_data, s2.bg_data) for d in dd.values()}
         if kind == "add_subdomains" and got is None:
             for g in gs:
                 present.append(g)
@@ -456,9 +573,14 @@ def oracle(case):
                         return fail(k, "no boundary grid created for a positive-dimensional subdomain", "add_subdomains:no-boundary-grid")
                     bg_of[g] = b
                     bg_data[b] = mdg.boundary_grid_data(b)
+            fresh = [sd_data[g] for g in gs] + [bg_data[bg_of[g]] for g in gs if g.dim > 0]
+            if len({id(d) for d in fresh}) < len(fresh) or any(id(d) in known for d in fresh) or any(len(d) for d in fresh):
+                return fail(k, "a new subdomain / boundary grid did not get a fresh, empty data dictionary of its own", "add_subdomains:data-not-fresh")
         elif kind == "add_interface" and got is None:
             pairs[m] = (ps[0], ps[1])
             if_data[m] = mdg.interface_data(m)
+            if id(if_data[m]) in known:
+                return fail(k, "a new interface did not get a data dictionary of its own", "add_interface:data-not-fresh")
             if if_data[m].get("face_cells") is not w.face_cells[op["i"]]:
                 return fail(k, "interface data does not hold the given face_cells map", "add_interface:data")
         elif kind == "remove_subdomain" and got is None:
@@ -474,47 +596,39 @@ def oracle(case):
                     return fail(k, "boundary grid of the removed subdomain is still in the container", "remove_subdomain:boundary-grid-survives")
             del sd_data[g]
         elif kind == "replace":
-            calls_expected += [["mortar", i] for i in op["intf_map"]]
-            for o, n in op["sd_map"]:
+            calls_expected = [["mortar", i] for i in op["intf_map"]]
+            for o, n, status, calls, _ in plan:
+                calls_expected += calls
+                if status != "ok":
+                    break  # the failing item must leave no trace
                 go, gn = w.grids[o], w.grids[n]
-                if go not in present:
-                    break
-                touching = sorted([i for i, p in pairs.items() if go in p], key=_key)
-                for i in touching:
-                    a, b = pairs[i]
-                    hi, lo = sorted((a, b), key=_key)
-                    if hi is go:
-                        calls_expected.append(["primary", w.itf(i), n, o])
-                    if lo is go:
-                        calls_expected.append(["secondary", w.itf(i), n])
-                    pairs[i] = tuple(gn if x is go else x for x in (a, b))
+                for i, pr in list(pairs.items()):
+                    pairs[i] = tuple(gn if x is go else x for x in pr)
                 present[present.index(go)] = gn
                 sd_data[gn] = sd_data.pop(go)
                 bo = bg_of.pop(go, None)
                 if bo is not None:
                     bn = mdg.subdomain_to_boundary_grid(gn)
-                    if bn is None or bn is bo or bn.parent is not gn:
-                        return fail(k, "replacement grid has no fresh boundary grid of its own", "replace:boundary-grid")
-                    if bo in mdg:
-                        return fail(k, "boundary grid of the replaced subdomain is still in the container", "replace:old-boundary-grid-survives")
-                    bg_of[gn] = bn
-                    bg_data[bn] = bg_data.pop(bo)
+                    if bn is not None and bn is not bo and bn.parent is gn:
+                        bg_of[gn] = bn
+                        bg_data[bn] = bg_data.pop(bo)
+                    else:
+                        bg_of[gn] = None  # reported by the state check below
             if w.log != calls_expected:
                 return fail(k, f"mortar update calls {w.log}, expected {calls_expected}", "replace:mortar-update-calls")
         # ---- the property, on the real container, against the shadow
-        r = _check_state(w, present, pairs, bg_of, sd_data, if_data, bg_data)
+        r = _check_state(w, sh)
         if r is not None:
+            if kind == "replace" and got is not None and got != "KeyError":
+                return fail(k, f"replace_subdomains_and_interfaces raised {got} from a mortar update and left the container half-updated "
+                            f"({r[0]})", "replace:raised-container-half-updated")
             return fail(k, r[0], f"{kind}:{r[1]}")
-    for m0, snap in forks:
-        cur, w.mdg = w.mdg, m0
-        now = w.raw()
-        w.mdg = cur
-        if now != snap:
-            return {"what": "operations on a copy() changed the original container", "key": "copy:original-changed"}
     return None
 
 
-def _check_state(w, present, pairs, bg_of, sd_data, if_data, bg_data):
+def _check_state(w, sh):
+    present, pairs, bg_of = sh.present, sh.pairs, sh.bg_of
+    sd_data, if_data, bg_data = sh.sd_data, sh.if_data, sh.bg_data
     mdg = w.mdg
     # 1. listings: each present object exactly once, sorted by (dim desc, id asc)
     for name, lister, objs in (("subdomains", mdg.subdomains, present), ("interfaces", mdg.interfaces, list(pairs))):
@@ -664,6 +778,11 @@ def gen_real(rng):
                     del pairs[i]
         elif pairs:
             ops.append({"op": "q_pair", "i": rng.choice(sorted(pairs))})
+    on, n = 0, 1
+    for op in ops:  # after copy() the history continues on the copy; the original must stay as it is
+        op["on"] = on
+        if op["op"] == "fork":
+            on, n = n, n + 1
     return {"family": "real", "sd_dims": sd_dims, "if_dims": list(REAL_IF), "if_codims": [1, 1, 1, 1], "derived": derived, "ops": ops}
 
 
@@ -676,10 +795,24 @@ def gen_case(rng, tier):
     sd_dims = [rng.choice(dim_w) for _ in range(rng.randint(2, 12 if big else 8))]
     if_dims, if_codims = [], []
     ops = []
-    # rough simulation, only to keep most ops valid
-    present, pairs = [], {}
-    unused = list(range(len(sd_dims)))
-    rng.shuffle(unused)
+    # rough simulation (one per container), only to keep most ops valid
+    unused0 = list(range(len(sd_dims)))
+    rng.shuffle(unused0)
+    sims = [{"present": [], "pairs": {}, "unused": unused0}]
+    on = 0
+
+    def okey(x, mortar=False):
+        return (-(if_dims[x] if mortar else sd_dims[x]), x)
+
+    def replace_ok(pairs, o, n):
+        """will the mortar updates of item o -> n be accepted? (dimension guards of MortarGrid)"""
+        for i in sorted([i for i, p in pairs.items() if o in p], key=lambda i: okey(i, True)):
+            hi, lo = sorted(pairs[i], key=okey)
+            if hi == o and if_dims[i] == 2:
+                return False
+            if lo == o and if_dims[i] != sd_dims[n]:
+                return False
+        return True
 
     def new_grid(d):
         sd_dims.append(d)
@@ -704,61 +837,14 @@ def gen_case(rng, tier):
     p_self = rng.choice([0.0, 0.0, 0.0, 0.03, 0.1])
     for _ in range(nops):
         r = rng.random()
-        if rng.random() < p_bad:
-            ops.append(_bad_op(rng, sd_dims, present, pairs, unused, new_grid, new_mortar, mortar_for))
-            continue
-        if r < 0.25 or not present:
-            if not unused:
-                unused.append(new_grid(rng.choice(dim_w)))
-            k = min(len(unused), rng.choice([1, 1, 1, 2, 3]))
-            gs = [unused.pop() for _ in range(k)]
-            ops.append({"op": "add_subdomains", "gs": gs, "single": rng.random() < 0.5})
-            present += gs
-        elif r < 0.58:
-            if rng.random() < p_self:
-                a = b = rng.choice(present)
-            else:
-                a, b = rng.choice(present), rng.choice(present)
-                for _ in range(6):  # prefer admissible, distinct pairs
-                    if a != b and abs(sd_dims[a] - sd_dims[b]) <= 2 and (sd_dims[a] != sd_dims[b] or rng.random() < 0.3):
-                        break
-                    b = rng.choice(present)
-            if abs(sd_dims[a] - sd_dims[b]) > 2 or (a == b and rng.random() >= max(p_self, 0.02)):
-                continue
-            free = [i for i in range(len(if_dims)) if i not in pairs and if_dims[i] <= min(sd_dims[a], sd_dims[b])]
-            i = rng.choice(free) if free and rng.random() < 0.3 else mortar_for(a, b)
-            ops.append({"op": "add_interface", "i": i, "pair": [a, b], "tuple": rng.random() < 0.8})
-            pairs[i] = (a, b)
-        elif r < 0.70:
-            g = rng.choice(present)
-            ops.append({"op": "remove_subdomain", "g": g})
-            present.remove(g)
-            for i in [i for i, p in pairs.items() if g in p]:
-                del pairs[i]
-        elif r < 0.86:
-            k = min(len(present), rng.choice([1, 1, 1, 2, 3]))
-            olds = rng.sample(present, k) if rng.random() < 0.9 else []
-            sd_map = []
-            for o in olds:
-                n = new_grid(sd_dims[o])
-                sd_map.append([o, n])
-                present[present.index(o)] = n
-                for i, p in list(pairs.items()):
-                    pairs[i] = tuple(n if x == o else x for x in p)
-            imap = rng.sample(sorted(pairs), min(len(pairs), rng.choice([0, 0, 1, 2]))) if pairs else []
-            ops.append({"op": "replace", "sd_map": sd_map, "intf_map": imap, "sd_none": rng.random() < 0.5, "intf_none": rng.random() < 0.5})
-        elif r < 0.97:
-            q = rng.random()
-            if q < 0.3 and if_dims:
-                ops.append({"op": "q_pair", "i": rng.randrange(len(if_dims))})
-            elif q < 0.6:
-                ops.append({"op": "q_back", "pair": [rng.randrange(len(sd_dims)), rng.randrange(len(sd_dims))]})
-            elif q < 0.9:
-                ops.append({"op": "q_sd", "g": rng.randrange(len(sd_dims))})
-            else:
-                ops.append({"op": "q_neigh_both", "g": rng.randrange(len(sd_dims))})
-        else:
-            ops.append({"op": "fork"})
+        if len(sims) > 1 and rng.random() < 0.3:
+            on = rng.randrange(len(sims))
+        present, pairs, unused = sims[on]["present"], sims[on]["pairs"], sims[on]["unused"]
+        nbefore = len(ops)
+        _gen_one(rng, r, ops, sims, on, present, pairs, unused, sd_dims, if_dims, dim_w, p_bad, p_self, new_grid, new_mortar, mortar_for, replace_ok)
+        for op in ops[nbefore:]:
+            op["on"] = on
+    present = sims[on]["present"]
     if rng.random() < 0.06 and present:
         # one accepted-but-ill-formed call at the very end (absent low-dimensional subdomain / too large mortar)
         a = rng.choice(present)
@@ -768,6 +854,79 @@ def gen_case(rng, tier):
         elif sd_dims[a] < 2:
             ops.append({"op": "add_interface", "i": mortar_for(a, a, wf=False), "pair": [a, a], "tuple": True})
     return {"family": "mock", "sd_dims": sd_dims, "if_dims": if_dims, "if_codims": if_codims, "ops": ops}
+
+
+def _gen_one(rng, r, ops, sims, on, present, pairs, unused, sd_dims, if_dims, dim_w, p_bad, p_self, new_grid, new_mortar, mortar_for, replace_ok):
+    """one more call on container `on` (and the update of its rough simulation)"""
+    if rng.random() < p_bad:
+        ops.append(_bad_op(rng, sd_dims, present, pairs, unused, new_grid, new_mortar, mortar_for))
+        return
+    if r < 0.25 or not present:
+        if not unused:
+            unused.append(new_grid(rng.choice(dim_w)))
+        k = min(len(unused), rng.choice([1, 1, 1, 2, 3]))
+        gs = [unused.pop() for _ in range(k)]
+        ops.append({"op": "add_subdomains", "gs": gs, "single": rng.random() < 0.5})
+        present += gs
+    elif r < 0.58:
+        if rng.random() < p_self:
+            a = b = rng.choice(present)
+        else:
+            a, b = rng.choice(present), rng.choice(present)
+            for _ in range(6):  # prefer admissible, distinct pairs
+                if a != b and abs(sd_dims[a] - sd_dims[b]) <= 2 and (sd_dims[a] != sd_dims[b] or rng.random() < 0.3):
+                    break
+                b = rng.choice(present)
+        if abs(sd_dims[a] - sd_dims[b]) > 2 or (a == b and rng.random() >= max(p_self, 0.02)):
+            return
+        free = [i for i in range(len(if_dims)) if i not in pairs and if_dims[i] <= min(sd_dims[a], sd_dims[b])]
+        i = rng.choice(free) if free and rng.random() < 0.3 else mortar_for(a, b)
+        ops.append({"op": "add_interface", "i": i, "pair": [a, b], "tuple": rng.random() < 0.8})
+        pairs[i] = (a, b)
+    elif r < 0.70:
+        g = rng.choice(present)
+        ops.append({"op": "remove_subdomain", "g": g})
+        present.remove(g)
+        for i in [i for i, p in pairs.items() if g in p]:
+            del pairs[i]
+    elif r < 0.86:
+        k = min(len(present), rng.choice([1, 1, 1, 2, 3]))
+        olds = rng.sample(present, k) if rng.random() < 0.9 else []
+        both = [p for p in pairs.values() if p[0] != p[1] and p[0] in present and p[1] in present]
+        if both and rng.random() < 0.3:
+            # stratum: one sd_map replaces BOTH subdomains of one interface (sometimes more on top)
+            olds = list(rng.choice(both))
+            rng.shuffle(olds)
+            if rng.random() < 0.3:
+                olds += [g for g in rng.sample(present, min(len(present), 1)) if g not in olds]
+        if rng.random() < 0.75:  # mostly replacements MortarGrid implements
+            olds = [o for o in olds if replace_ok(pairs, o, o)] or olds[:1]
+        sd_map = []
+        alive = True
+        for o in olds:
+            n = new_grid(sd_dims[o])
+            sd_map.append([o, n])
+            if alive and replace_ok(pairs, o, n):
+                present[present.index(o)] = n
+                for i, p in list(pairs.items()):
+                    pairs[i] = tuple(n if x == o else x for x in p)
+            else:
+                alive = False  # this item raises; the later ones are not reached
+        imap = rng.sample(sorted(pairs), min(len(pairs), rng.choice([0, 0, 1, 2]))) if pairs else []
+        ops.append({"op": "replace", "sd_map": sd_map, "intf_map": imap, "sd_none": rng.random() < 0.5, "intf_none": rng.random() < 0.5})
+    elif r < 0.97:
+        q = rng.random()
+        if q < 0.3 and if_dims:
+            ops.append({"op": "q_pair", "i": rng.randrange(len(if_dims))})
+        elif q < 0.6:
+            ops.append({"op": "q_back", "pair": [rng.randrange(len(sd_dims)), rng.randrange(len(sd_dims))]})
+        elif q < 0.9:
+            ops.append({"op": "q_sd", "g": rng.randrange(len(sd_dims))})
+        else:
+            ops.append({"op": "q_neigh_both", "g": rng.randrange(len(sd_dims))})
+    else:
+        ops.append({"op": "fork"})
+        sims.append({"present": list(present), "pairs": dict(pairs), "unused": list(unused)})
 
 
 def _bad_op(rng, sd_dims, present, pairs, unused, new_grid, new_mortar, mortar_for):
@@ -883,5 +1042,16 @@ def stats(cases, impl_outs):
     for d in (0, 1, 2, 3):
         c[f"grids_dim{d}"] = sum(case["sd_dims"].count(d) for case in cases)
     c["family_real"] = sum(1 for case in cases if case.get("family") == "real")
+    c["cases_with_copy"] = sum(1 for case in cases if any(op["op"] == "fork" for op in case["ops"]))
+    c["calls_on_a_copy"] = sum(1 for case in cases for op in case["ops"] if op.get("on", 0) > 0)
+    for case in cases:
+        prs = {}
+        for op in case["ops"]:
+            if op["op"] == "add_interface" and len(op["pair"]) == 2:
+                prs[(op.get("on", 0), op["i"])] = set(op["pair"])
+            if op["op"] == "replace" and len(op["sd_map"]) > 1:
+                olds = {o for o, _ in op["sd_map"]}
+                if any(len(pr) == 2 and pr <= olds for (on, _), pr in prs.items() if on == op.get("on", 0)):
+                    c["sd_map_hits_both_ends_of_an_interface(first generation)"] += 1
     c["histories_len_ge_20"] = sum(1 for case in cases if len(case["ops"]) >= 20)
     return {"counts": dict(c), "errors": dict(errs)}
